@@ -1496,4 +1496,28 @@ theorem record_stable_run (ops : List Op) (q : Nat) (h : ∀ op ∈ ops, opPod o
     simp only [run] at this
     rw [this, record_stable s op q (h op (by simp))]
 
+/-! ### Device informer events -/
+
+/-- a Device delete in any well-formed shape installs the invalidated inventory: every total is what `inv` says (0 for an
+    inventory of unhealthy devices), in-use amounts and allocateSet are untouched -/
+theorem device_delete_wellformed_invalidates (s : TState) (sh : Shape) (inv : DevRes) (hw : sh.wellFormedDelete = true)
+    (m k : Nat) :
+    let s' := run s (devOps (.devDelete sh inv))
+    drVal s'.total m k = drVal inv m k ∧ s'.used = s.used ∧ s'.pods = s.pods := by
+  have hd : decodeDelete sh = true := by cases sh <;> simp_all [Shape.wellFormedDelete, decodeDelete]
+  simp only [devOps, hd, if_true, run_single, step]
+  exact ⟨(refresh_total s inv m k).2, rfl, rfl⟩
+
+/-- shapes client-go never delivers leave the inventory alone -/
+theorem device_garbage_noop (s : TState) (sh so sn : Shape) (nt : DevRes) :
+    (sh.wellFormedDelete = false → run s (devOps (.devDelete sh nt)) = s) ∧
+    (decodeObj sh = false → run s (devOps (.devAdd sh nt)) = s) ∧
+    ((decodeObj so && decodeObj sn) = false → run s (devOps (.devUpdate so sn nt)) = s) := by
+  refine ⟨?_, ?_, ?_⟩
+  · intro h
+    have hd : decodeDelete sh = false := by cases sh <;> simp_all [Shape.wellFormedDelete, decodeDelete]
+    simp [devOps, hd, run]
+  · intro h; simp [devOps, h, run]
+  · intro h; simp only [devOps, h]; rfl
+
 end KoordVerif.C07
